@@ -106,15 +106,46 @@ def replay(ob):
     return {"reproduced": False, "note": "no native replay for this family"}
 
 
-def replay_wyckoff_params(sg, letter):
+PARAM_SETS = (None, {"x": 0.06, "y": 0.045, "z": 0.045}, {"x": 0.94, "y": 0.955, "z": 0.93}, {"x": 0.27, "y": 0.61, "z": 0.83})
+
+
+def offset_positions(limit=14):
+    """(sg, letter) whose tabulated representative reads a free variable together with a constant offset (x+1/8, z+1/4, ...):
+    the positions on which a missing final wrap of the solved parameters shows"""
+    INFO, WY, NZ = tabvc.load_tables()
+    out = []
+    for sg in range(1, 231):
+        for L in sorted(k for k in WY[sg] if k != "translations"):
+            for comp in WY[sg][L]["expressions"][0]:
+                coef, const = tabvc.parse_expr(comp)
+                if const != 0 and sum(1 for v in "xyz" if coef[v] != 0) == 1:
+                    out.append((sg, L))
+                    break
+            if out and out[-1][0] == sg:
+                break
+    step = max(1, len(out) // limit)
+    return out[::step][:limit]
+
+
+def replay_wyckoff_params(sg, letter, param_sets=PARAM_SETS):
+    """the parameters near 0, near 1 and generic; the first failing set is reported"""
+    last = {"reproduced": False}
+    for ps in param_sets:
+        last = _replay_wyckoff_params(sg, letter, ps)
+        if last.get("reproduced"):
+            return last
+    return last
+
+
+def _replay_wyckoff_params(sg, letter, params=None):
     """Occupy the position (and the general position, to pin the group) and ask for the Wyckoff parameters."""
     INFO, WY, NZ = tabvc.load_tables()
     letters = sorted(k for k in WY[sg] if k != "translations")
     alphabet = "abcdefghijklmnopqrstuvwxyzA"
     general = sorted(letters, key=alphabet.index)[-1]
-    occ = [(letter, 29, None)]
+    occ = [(letter, 29, params)]
     atoms = pinned_probe(sg, occ, npin=2)
-    res = {"probe": {"sg": sg, "occupied": [o[0] for o in occ], "natoms": len(atoms)}}
+    res = {"probe": {"sg": sg, "occupied": [o[0] for o in occ], "parameters": params or "default", "natoms": len(atoms)}}
     try:
         a = analyze(atoms)
         res["detected_sg"] = int(a.get_space_group_number())
@@ -230,8 +261,11 @@ def replay_info(sg, fam):
     import spglib
 
     letters = _chiral_probe(sg)
-    atoms = probe(sg, [(letters[-1], 14, None)])
-    a = analyze(atoms)
+    # the first probe whose detected group is the wanted one (a single orbit with round parameters can have a supergroup's symmetry)
+    for atoms in (probe(sg, [(letters[-1], 14, None)]), pinned_probe(sg, npin=1), pinned_probe(sg, npin=2), pinned_probe(sg, npin=3)):
+        a = analyze(atoms)
+        if int(a.get_space_group_number()) == sg:
+            break
     t = tabvc.ref_type(sg)
     got = {"sg": int(a.get_space_group_number()), "crystal_system": a.get_crystal_system(), "bravais": a.get_bravais_lattice(),
            "point_group_table": __import__("matid.data.symmetry_data", fromlist=["x"]).SPACE_GROUP_INFO[sg]["pointgroup"],
